@@ -271,3 +271,13 @@ func (st *rawState) bothModes() map[string]bool {
 	}
 	return out
 }
+
+// hasRecord: does the raw state hold a pin record of the given mode for the CID?
+func (st *rawState) hasRecord(c, mode string) bool {
+	for _, p := range st.Pins {
+		if p.Cid == c && p.Mode == mode {
+			return true
+		}
+	}
+	return false
+}
